@@ -18,7 +18,8 @@ RULE = ('Hypothesis strategies over (image h,w in 1..3000 with 1/2/3/primes and 
         'GRAY/BGR/RGB, contiguous/strided, RW/RO) x chains of 1-3 transforms with every parameter form (text and structured), '
         'plus the video reader maxsize/resize, plus an exhaustive grid of the size arithmetic. Non-trivial = the chain '
         'changed size or pixels, or a corner class holds (dimension 1, bound equals size, result dimension 1, one side over '
-        'and one under). Distinct = distinct case value.')
+        'and one under). Distinct = distinct case value.'
+        ' The video reader is fed several frames of different sizes per case.')
 ASSUMPTIONS = ['cv2.resize/flip/rotate/rectangle do what OpenCV documents for a given (w,h) and points; only the arguments the '
                'filter computes are judged', 'uint8 images only; sides <= 3000 px']
 BUDGET = {'quick': 40, 'thorough': 900}
